@@ -475,9 +475,8 @@ def run(ctx):
     if seen["rejected"] > 0.01 * max(seen["n"], 1):
         raise core.HarnessError("pattern generator unhealthy: %d of %d texts rejected by the third-party validator" % (seen["rejected"], seen["n"]))
     total = max(ctx.evaluations, 1)
-    thin = [c for c in REQUIRED_CLASSES if ctx.classes.get(c, 0) < 0.01 * total]
-    if thin and total >= 1000:
-        raise core.HarnessError("generator unhealthy: classes below 1%% of %d cases: %s" % (total, thin))
+    if total >= 1000:
+        core.health(ctx, REQUIRED_CLASSES, total=total)
 
 
 def replay(case):
